@@ -7,6 +7,8 @@ from vf.harness import H
 
 def replay_file(mod, prop, path):
     d = json.load(open(path))
+    if d.get("kind") and hasattr(mod, "replay_custom"):
+        return mod.replay_custom(d, prop, path)
     name = d["harness"]
     h = None
     for tier in ("quick", "thorough"):
